@@ -19,6 +19,8 @@ inductive Op (σ : Type) where
   | transferOwnership (auths : List Addr) (new : Addr)
   | transferOperatorship (auths : List Addr) (new : Addr)
   | setTime (now : Nat)
+  | upgrade (auths : List Addr)
+  | migrate (auths : List Addr)
 
 /-- what the caller / an observer sees of one operation -/
 inductive Obs where
@@ -56,6 +58,31 @@ def step (w : World) : Op σ → World × Obs
     | .ok (st', evs) => ({ w with st := st' }, .ok evs)
     | .error e => (w, .err e)
   | .setTime now => ({ w with now := now }, .ok [])
+  | .upgrade auths =>
+    if w.st.owner ∈ auths then ({ w with st := { w.st with migrating := true } }, .ok [])
+    else (w, .err .unauthorized)
+  | .migrate auths =>
+    if w.st.owner ∉ auths then (w, .err .unauthorized)
+    else if w.st.migrating then ({ w with st := { w.st with migrating := false } }, .ok [])
+    else (w, .err .migrationNotAllowed)
+
+/-- `upgrade` (to the same code) touches nothing but the migration window -/
+theorem step_upgrade_fst (w : World) (auths : List Addr) :
+    ∃ b, (step H V w (.upgrade auths)).1 = { w with st := { w.st with migrating := b } } := by
+  simp only [step]
+  split
+  · exact ⟨true, rfl⟩
+  · exact ⟨w.st.migrating, rfl⟩
+
+/-- `migrate` touches nothing but the migration window -/
+theorem step_migrate_fst (w : World) (auths : List Addr) :
+    ∃ b, (step H V w (.migrate auths)).1 = { w with st := { w.st with migrating := b } } := by
+  simp only [step]
+  split
+  · exact ⟨w.st.migrating, rfl⟩
+  · split
+    · exact ⟨false, rfl⟩
+    · exact ⟨w.st.migrating, rfl⟩
 
 /-- a history: the final world and the observations, in order -/
 def run (w : World) : List (Op σ) → World × List Obs
